@@ -17,7 +17,7 @@ ASSUMPTIONS = ["per-tick |rate| and |accel| <= 2^31-1 for ticks 1..T, 1 <= T < 2
 AMBIENT = [("dps", 5), ("dps", 15), ("dps", 30), ("dps", 50), ("prec", 7), ("prec", 200)]
 
 def generate(rng, tier):
-    n = 1200 if tier == "quick" else 30000
+    n = 1200 if tier == "quick" else 90000
     cases = []
     for _ in range(n):
         T, rate, accel, jerk, fam = ebbgen.gen_t3(rng)
@@ -32,14 +32,20 @@ def generate(rng, tier):
         cases.append({"kind": "r", "T": T, "rate": rate, "accel": accel, "jerk": jerk, "amb": amb, "family": fam + "/rate"})
     return cases
 
+def _clear(c):
+    """the request for a cleared accumulator: the literal, or an equal string built at run time (what a caller reading it from a file or a
+    command line passes: equal to "clear" but a different object)"""
+    return "clear" if (c["rate"] + c["accel"]) % 2 else "".join(("cle", "ar"))
+
 def run_impl(c):
     k, v = AMBIENT[c["amb"]]
     setattr(mpmath.mp, k, v)
     try:
         if c["kind"] == "r":
             return {"rate": int(ebb_calc.rate_t3(c["T"], c["rate"], c["accel"], c["jerk"]))}
-        acc = "clear" if c["acc"] is None else c["acc"]
-        p, a = ebb_calc.move_dist_t3(c["T"], c["rate"], c["accel"], c["jerk"], acc)
+        acc = _clear(c) if c["acc"] is None else c["acc"]
+        if c["acc"] is None and c["T"] % 3 == 0: p, a = ebb_calc.move_dist_t3(c["T"], c["rate"], c["accel"], c["jerk"])      # argument omitted: the documented default is "clear"
+        else: p, a = ebb_calc.move_dist_t3(c["T"], c["rate"], c["accel"], c["jerk"], acc)
         out = {"pos": int(p), "acc": int(a)}
         if c["kind"] == "z":
             setattr(mpmath.mp, k, v)
